@@ -1,11 +1,13 @@
 import Drivers.Proto
 import St4sd.Model.Ctrl
 import St4sd.Model.CtrlEngine
+import St4sd.Model.CtrlSplit
 /-! Model driver for properties C01 and C02 (C02 entry point) (shared model `St4sd.Ctrl`).
 
 request : {"comps":[{stage,preds,isRepeat,isAgg,isRepl,shutdownOn,restartOn,maxRestarts,script}],
            "order":[..], "lastStage":k, "cont":[stages with continue-on-error],
-           "ops":[["sched"]|["exit",c]|["fin",c]|["pm",c]|["kill"]|["tick",c]|["next"]]}
+           "ops":[["sched"]|["exit",c]|["fin",c]|["pm",c]|["kill"]|["tick",c]|["next"]|["complete",k]]}
+           (["complete",k] = the stage-completion hook of stage k fired: `SOp.complete` of Model/CtrlSplit.lean)
            optional "launches":[[per component: "task:Reason" | "submitError" | "otherError", one per execution]]
 answer  : {"snaps":[state after every op], "stageDone", "quiescent", "canAdvance", "verdict", "reports",
            "log", "spec", "own", "engineReasons":[[what EngS.reported says the engine reports after each execution]]} -/
@@ -45,18 +47,19 @@ def parseComp (j : Json) : Except String CompDef := do
            isAgg := ← getBool j "isAgg", isRepl := ← getBool j "isRepl", shutdownOn := so, restartOn := ro,
            maxRestarts := ← getNat j "maxRestarts", script := sc }
 
-def parseOp (j : Json) : Except String Op := do
+def parseOp (j : Json) : Except String SOp := do
   let a ← j.getArr?
   let k ← (a[0]!).getStr?
   let arg : Except String Nat := do (← (a[1]? |>.elim (throw "missing operand") pure)).getNat?
   match k with
-  | "sched" => pure .sched
-  | "kill" => pure .kill
-  | "exit" => return .exit (← arg)
-  | "fin" => return .fin (← arg)
-  | "pm" => return .pm (← arg)
-  | "tick" => return .tick (← arg)
-  | "next" => pure .next
+  | "sched" => pure (.base .sched)
+  | "kill" => pure (.base .kill)
+  | "exit" => return .base (.exit (← arg))
+  | "fin" => return .base (.fin (← arg))
+  | "pm" => return .base (.pm (← arg))
+  | "tick" => return .base (.tick (← arg))
+  | "next" => pure (.base .next)
+  | "complete" => return .complete (← arg)
   | _ => throw s!"unknown op {k}"
 
 def notifJson : Notif → Json
@@ -76,7 +79,8 @@ def sortNotifs (l : List Notif) : List Notif :=
 def snap (wf : Wf) (s : St) : Json :=
   jobj [("comps", jarr ((comps wf).map fun c =>
             let cs := s.comp c
-            jarr [jstr (stateName cs), jbool (s.done c), jbool cs.staged, jnat cs.launches, jbool cs.finishCalled])),
+            jarr [jstr (stateName cs), jbool (s.done c), jbool cs.staged, jnat cs.launches, jbool cs.finishCalled,
+                  jbool (cs.ran && cs.exit.isNone && (wf.cdef c).isRepeat && notified s c)])),
         ("stop", jbool s.stop),
         ("stage", jnat s.cur),
         ("pending", jarr ((sortNotifs s.pending).map notifJson))]
@@ -92,10 +96,10 @@ def handle (j : Json) : Except String Json := do
     | _ => pure []
   let wf : Wf := { n := cds.length, cdef := fun i => cds.getD i {}, order := order, lastStage := lastStage,
                    contOnErr := fun k => cont.contains k }
-  let (afin, snapsRev) := ops.foldl (fun (acc : (St × Reports) × List Json) op =>
-      let a' := stepR wf acc.1 op
-      (a', snap wf a'.1 :: acc.2)) ((init, []), [])
-  let sfin := afin.1
+  let (afin, snapsRev) := ops.foldl (fun (acc : (SSt × Reports) × List Json) op =>
+      let a' := sstepR wf acc.1 op
+      (a', snap wf a'.1.base :: acc.2)) ((sinit, []), [])
+  let sfin := afin.1.base
   let verdictName (v : Verdict) : String :=
     match v with
     | .ok => "ok" | .jobFailure => "UnexpectedJobFailureError"
@@ -105,6 +109,7 @@ def handle (j : Json) : Except String Json := do
   return jobj [("snaps", jarr snapsRev.reverse),
                ("stageDone", jbool (stageDone wf sfin)),
                ("quiescent", jbool (quiescent wf sfin)),
+               ("quiescentR", jbool (quiescentR wf sfin)),
                ("canAdvance", jbool (canAdvance wf sfin)),
                ("verdict", jstr (verdictName (verdict wf sfin))),
                ("reports", jarr (afin.2.map fun e => jarr [jnat e.1, jstr (verdictName e.2)])),
